@@ -28,6 +28,7 @@ fn stage(i: &Input, c: &mut Case) -> Result<(), String> {
     // source script
     let mut steps = crate::props::common::gen_chunks(&mut t, len);
     let inject = t.chance(1, 3);
+    let mut persistent = false;
     let mut inj_k = 0u32;
     if inject {
         inj_k = 1 + t.below(1000) as u32;
@@ -58,12 +59,23 @@ fn stage(i: &Input, c: &mut Case) -> Result<(), String> {
             let at = t.below(steps.len() + 1);
             steps.insert(at, RStep::Fail(inj_k));
         }
+        // a source that does not recover: every read from the failure on fails the same way (the item bound must hold all the same)
+        if t.chance(1, 3) {
+            if let Some(at) = steps.iter().position(|s| matches!(s, RStep::Fail(_))) {
+                steps.truncate(at + 1);
+                for _ in 0..400 {
+                    steps.push(RStep::Fail(inj_k));
+                }
+                persistent = true;
+            }
+        }
     }
     // call script: decisions drawn lazily
     let recover_after_err = t.range(0, 10) as u32; // probability /10
     let recover_anytime = t.below(3) as u32; // /40
     c.label(m.origin.label());
     c.label_if(inject, "injected_io_error");
+    c.label_if(persistent, "source_keeps_failing");
     c.label_if(!cfg.eof_close, "eof_closing_off");
     c.label_if(cfg.capacity.map(|x| x < 16).unwrap_or(false), "capacity_below_16");
     c.key(&(&m.bytes, &format!("{:?}{:?}", steps, cfg.render()), recover_after_err, recover_anytime));
@@ -77,6 +89,7 @@ fn stage(i: &Input, c: &mut Case) -> Result<(), String> {
     let mut calls = 0usize;
     let mut last_nonend: Option<usize> = None;
     let mut pending_recover_floor: Option<usize> = None;
+    let mut inject_floor: Option<usize> = None;
     let mut saw_injected_err = false;
     let mut none_before_injected = false;
     let res: Result<(), String> = with_spec!(m.spec, T => {
@@ -144,6 +157,12 @@ fn stage(i: &Input, c: &mut Case) -> Result<(), String> {
                         break;
                     }
                     if !f.is_end() {
+                        if let Some(floor) = inject_floor.take() {
+                            if off <= floor {
+                                result = Err(format!("after the source's failure inj-{} the iterator emitted the element at offset {} although it had already emitted the one at {}: input read twice", inj_k, off, floor));
+                                break;
+                            }
+                        }
                         if let Some(floor) = pending_recover_floor.take() {
                             if off <= floor {
                                 result = Err(format!("try_recover() moved backwards: first tag after recovery at offset {}, last tag before it at {}", off, floor));
@@ -168,6 +187,8 @@ fn stage(i: &Input, c: &mut Case) -> Result<(), String> {
                             break;
                         }
                         saw_injected_err = true;
+                        // whatever was emitted before the failure must not be emitted again after it
+                        inject_floor = last_nonend;
                     } else if injected_now(&rd) && !saw_injected_err {
                         result = Err(format!("the source failed with inj-{} but the first error the iterator reports afterwards is {}", inj_k, e.short()));
                         break;
@@ -332,7 +353,7 @@ pub fn run(rc: &mut RunCtx) {
     // shapes: 0 empty known-size, 1 unknown-size closed by the next sibling, 2 with a child, 3 separated by a root-level leaf
     rc.run_indexed(STAGES[1], 4, true, &|k| Input::Args(vec![k, 3000]));
     rc.run_pt(STAGES[0], rc.pick(960_000, 5_000_000), (128, 700));
-    for l in ["error_returned", "try_recover_called", "injected_error_surfaced", "fused_checked", "capacity_below_16", "input_adversarial_headers", "input_random_bytes", "failure_injected_at_tag_boundary"] {
+    for l in ["error_returned", "try_recover_called", "injected_error_surfaced", "fused_checked", "capacity_below_16", "input_adversarial_headers", "input_random_bytes", "failure_injected_at_tag_boundary", "source_keeps_failing"] {
         rc.require_label("totality", l, 10_000);
     }
     if !rc.quick() {
